@@ -7,14 +7,14 @@ DEPS = ("Trusted base: rustc 1.97 nightly (type checker, const evaluator, match 
 CLAIMS = {
     "C04": {
         "level": "other",
-        "technique": "static obligation analysis over the monomorphic call graph (walked through dependency MIR): every Assert / contract-panicking call / unsafe operation in reachable /repo instances must be discharged by a typed rule (C13's templates by covered span, constant arithmetic, value-range intervals derived from parameter types, concretely unrolled counting loops, constant ranges of fixed arrays); SCC no-recursion; input-consuming-loop rule; no mutable globals",
+        "technique": "static obligation analysis over the monomorphic call graph (walked through dependency MIR): every Assert / contract-panicking call / unsafe operation in reachable /repo instances must be discharged by a typed rule (C13's templates by covered span, constant arithmetic, value-range intervals derived from parameter types, concretely unrolled counting loops, constant ranges of fixed arrays); SCC no-recursion; input-consuming-loop rule; no mutable globals; in a configuration with logging compiled in, no panic-capable construct inside the arguments of a log statement on the decode path",
         "text": "Sound-by-construction for /repo code relative to the deny table: the exact set of /repo function instances reachable from Request::deserialize is computed (88 per configuration), all their panic-capable MIR constructs are listed (5 today, all in truncate/floor_char_boundary) "
                 "and discharged by the C13 template; any new one is reported with a call path. Recursion, non-consuming loops and mutable globals are excluded structurally. Panic-freedom/termination inside the dependencies is not decided; the property's byte enumeration is a dynamic technique and is not imitated.",
         "note": DEPS + "Conservative corner (DESIGN section 4.1): a new panic-capable construct that a human could prove safe is still reported as undischarged.",
     },
     "C19": {
         "level": "other",
-        "technique": "static obligation analysis over the monomorphic call graph from the three derived Arbitrary impls (all features + arbitrary), each unwrap / unsafe call / pointer cast / assert discharged by a typed template over HIR slots or a path-summary rule (lengths vs capacities on every path, value-range intervals, dataflow on the Unstructured, repr(transparent) pointer chain, who-may-call)",
+        "technique": "static obligation analysis over the monomorphic call graph from the three derived Arbitrary impls (all features + arbitrary), each unwrap / unsafe call / pointer cast / assert discharged by a typed template over HIR slots or a path-summary rule (lengths vs capacities on every path, value-range intervals, dataflow on the Unstructured, repr(transparent) pointer chain, who-may-call; total arguments of the dispatchers' log statements with logging compiled in)",
         "text": "All 54 obligations in the reachable /repo instances (per monomorphic instance) are discharged by closed-form templates: array conversions of exactly the requested length, lengths clamped to the target capacity, loop maximum / drawn iteration count = vector capacity, unchecked UTF-8 on the validated prefix of the same buffer, "
                 "transparent pointer cast with an audited single caller, derive(Arbitrary)'s selector arithmetic. Validity of produced values then follows from the container type invariants. Relative to arbitrary 1.4.2's documented contracts.",
         "note": DEPS + "Trusted: arbitrary 1.4.2 (bytes(n) returns exactly n bytes, peek_bytes does not consume, arbitrary_loop honours max, int_in_range returns a value of its range, derive expansion). Not decided: formatting/cloning/dispatching the value.",
@@ -43,7 +43,7 @@ CLAIMS = {
     },
     "C08": {
         "level": "other",
-        "technique": "static path summaries of the APDU parser (helpers expanded, constants evaluated); the comparisons of each path interpreted as sets: class/instruction over 0..=255, data-length conditions over the complete (length 0..=1100) x (byte 64) grid with a slice algebra; bounds obligation of every slice operation checked on the region admitted before it; control-byte table",
+        "technique": "static path summaries of the APDU parser (helpers expanded, constants evaluated); the comparisons of each path interpreted as sets: class/instruction over 0..=255, data-length conditions over the complete (length 0..=1100) x (byte 64) grid with a slice algebra; bounds obligation of every slice operation checked on the region admitted before it (also of the arguments of log statements, in a configuration with logging compiled in); control-byte table",
         "text": "Every result of the parser is decided from the set of branch literals that dominate it, compared with the literals the U2F raw message format requires (class precedence, instruction, exact lengths, offsets), on every (class, instruction, P1 validity, length, byte 64) combination the admitting path returns what the raw message format prescribes (totality and exactness), "
                 "and every panic-capable slice operation is discharged on the set of (length, byte 64) combinations admitted by the comparisons that precede it. Holds for all APDUs relative to iso7816's accessors.",
         "note": DEPS + "Not decided: Lc/Le framing and Instruction::from (iso7816).",
